@@ -195,7 +195,8 @@ def _canary(unit, spec, b):
         if it["kind"] == "fn" and not it.get("no_canary") and not it.get("witness"):
             c = copy.deepcopy(it)
             c["ensures"] = list(c.get("ensures", [])) + ["false"]
-            c["rename"] = it["name"] + "__canary"
+            c["rename"] = (it.get("rename") or it["name"]) + "__canary"
+            c["rename_tag"] = "#canary"
             items2.append(c)
             names.append(it.get("label", (it.get("impl_name", "") + "::" if it.get("impl_name") else "") + it["name"]) + "#canary")
     sp2["items"] = items2
